@@ -326,7 +326,7 @@ func TestC03(t *testing.T) {
 	rec.SetJournalAll(true)
 	rec.Assume("outcomes are restricted to replies the retry policy does not retry for the request's class, so every attempt carries the same bytes",
 		"v5 uses the legacy (pre-segment) frame layout, as the proxy and its own tests do; snappy is not paired with v5")
-	runProp(t, rec, "transparent", perShard(evid.Pick(6000, 120000)), func(rt *rapid.T) c03Case {
+	runProp(t, rec, "transparent", perShard(evid.Pick(12000, 300000)), func(rt *rapid.T) c03Case {
 		c := c03Gen(rt)
 		labels := []string{"max:" + protogen.VersionName(primitive.ProtocolVersion(c.MaxVersion)), "client:" + protogen.VersionName(primitive.ProtocolVersion(c.Version)), "comp:" + map[bool]string{true: c.Comp, false: "none"}[c.Comp != ""]}
 		key := ""
